@@ -56,7 +56,8 @@ fn search_wire(rng: &mut Rng, budget: usize) -> Option<String> {
     let mut cases: Vec<(u64, u64, usize, usize, usize, usize)> = vec![(0, 0, 0, 0, 0, 0), (253, 65536, 253, 1, 2, 64), (5, 6, 300, 8, 0, 1), (u64::MAX - 1, 252, 252, 0, 3, 0), (u64::MAX, u64::MAX, 1, 14, 3, 0)];
     for _ in 0..budget { cases.push((rng.pick(&INTS), rng.pick(&INTS), rng.pick(&[0usize, 1, 7, 252, 253, 254, 300]), rng.below(15) as usize, rng.below(4) as usize, rng.pick(&[0usize, 1, 64, 253]))); }
     for c in cases {
-        let ns: Vec<(u64, u64, u8)> = (0..c.3).map(|i| (INTS[(i + c.0 as usize % 5) % INTS.len()], INTS[(i * 3 + 1) % INTS.len()], i as u8 + 1)).collect();
+        // node 0 of the list carries an all-zero hash (a legal value: it must round-trip like any other)
+        let ns: Vec<(u64, u64, u8)> = (0..c.3).map(|i| (INTS[(i + c.0 as usize % 5) % INTS.len()], INTS[(i * 3 + 1) % INTS.len()], i as u8)).collect();
         let ns2: Vec<(u64, u64, u8)> = (0..c.4).map(|i| (INTS[(i + 2) % INTS.len()], 9, 0x80 + i as u8)).collect();
         if let Some(m) = wire_case(c.0, c.1, c.2, &ns, &ns2, c.5) { return Some(format!("{{\"ints\":[{},{}],\"value_len\":{},\"nodes\":{},\"additional_nodes\":{},\"signature_len\":{},\"why\":\"{}\"}}|{};{};{};{};{};{}", c.0, c.1, c.2, c.3, c.4, c.5, m, c.0, c.1, c.2, c.3, c.4, c.5)); }
     }
@@ -64,7 +65,7 @@ fn search_wire(rng: &mut Rng, budget: usize) -> Option<String> {
 }
 fn rerun_wire(input: &str) -> Option<String> {
     let f: Vec<u64> = input.rsplit('|').next().unwrap().split(';').map(|x| x.parse().unwrap()).collect();
-    let ns: Vec<(u64, u64, u8)> = (0..f[3] as usize).map(|i| (INTS[(i + f[0] as usize % 5) % INTS.len()], INTS[(i * 3 + 1) % INTS.len()], i as u8 + 1)).collect();
+    let ns: Vec<(u64, u64, u8)> = (0..f[3] as usize).map(|i| (INTS[(i + f[0] as usize % 5) % INTS.len()], INTS[(i * 3 + 1) % INTS.len()], i as u8)).collect();
     let ns2: Vec<(u64, u64, u8)> = (0..f[4] as usize).map(|i| (INTS[(i + 2) % INTS.len()], 9, 0x80 + i as u8)).collect();
     wire_case(f[0], f[1], f[2] as usize, &ns, &ns2, f[5] as usize)
 }
